@@ -191,6 +191,125 @@ func c18xrun(intervalMs, k int) string {
 	return fmt.Sprintf("pings=%d connclosed=%v errh=%d disc=%d returned=%v afterret=%d", pings, closed, errh, disc, returned, after)
 }
 
+// closingConn: the stream header, then - after a while - the server's </stream:stream>; every write succeeds.
+type closingConn struct {
+	halfOpenConn
+	after  time.Duration
+	start  time.Time
+	sent   bool
+	pingAt []time.Time
+}
+
+func (d *closingConn) Read(p []byte) (int, error) {
+	d.mu.Lock()
+	if len(d.data) > 0 {
+		n := copy(p, d.data)
+		d.data = d.data[n:]
+		d.mu.Unlock()
+		return n, nil
+	}
+	if d.sent {
+		d.mu.Unlock()
+		<-d.closed
+		return 0, io.ErrClosedPipe
+	}
+	d.mu.Unlock()
+	select {
+	case <-time.After(time.Until(d.start.Add(d.after))):
+	case <-d.closed:
+		return 0, io.ErrClosedPipe
+	}
+	d.mu.Lock()
+	d.sent = true
+	d.mu.Unlock()
+	return copy(p, "</stream:stream>"), nil
+}
+
+func (d *closingConn) Write(p []byte) (int, error) {
+	d.mu.Lock()
+	defer d.mu.Unlock()
+	if string(p) == "\n" {
+		d.pingAt = append(d.pingAt, time.Now())
+	}
+	return len(p), nil
+}
+
+// c18xclose: real keepalive + real receive loop on a real XMPPTransport; the server closes the stream gracefully.
+func c18xclose(intervalMs, afterMs int) string {
+	errh, disc := 0, 0
+	var mu sync.Mutex
+	cfg := &xmpp.Config{TransportConfiguration: xmpp.TransportConfiguration{Address: "127.0.0.1:1", Domain: "localhost"},
+		Jid: "u@localhost/r", Credential: xmpp.Password("p")}
+	client, err := xmpp.NewClient(cfg, xmpp.NewRouter(), func(error) { mu.Lock(); errh++; mu.Unlock() })
+	if err != nil {
+		return "newclient-failed"
+	}
+	xt, ok := xmpp.VerifTransport(client).(*xmpp.XMPPTransport)
+	if !ok {
+		return "not-an-xmpp-transport"
+	}
+	xt.Config.ConnectTimeout = 0
+	dc := &closingConn{after: time.Duration(afterMs) * time.Millisecond, start: time.Now()}
+	dc.data = []byte("<?xml version='1.0'?><stream:stream xmlns='jabber:client' xmlns:stream='http://etherx.jabber.org/streams' version='1.0' id='s1'>")
+	dc.closed = make(chan struct{})
+	xmpp.VerifXMPPTransportSetConn(xt, dc)
+	if _, err := stanza.InitStream(xt.GetDecoder()); err != nil {
+		return "initstream-failed"
+	}
+	client.SetHandler(func(e xmpp.Event) error {
+		if xmpp.VerifEventState(e) == xmpp.StateDisconnected {
+			mu.Lock()
+			disc++
+			mu.Unlock()
+		}
+		return nil
+	})
+	client.Session = &xmpp.Session{}
+	quit := make(chan struct{})
+	kdone, rdone := make(chan struct{}), make(chan struct{})
+	go func() {
+		defer close(kdone)
+		xmpp.VerifKeepalive(xt, time.Duration(intervalMs)*time.Millisecond, quit)
+	}()
+	go func() {
+		defer close(rdone)
+		defer func() { recover() }()
+		xmpp.VerifRecv(client, quit)
+	}()
+	returned := true
+	deadline := time.Now().Add(time.Duration(afterMs+6*intervalMs)*time.Millisecond + 2*time.Second)
+	for _, ch := range []chan struct{}{rdone, kdone} {
+		select {
+		case <-ch:
+		case <-time.After(time.Until(deadline)):
+			returned = false
+		}
+	}
+	retTime := time.Now()
+	time.Sleep(time.Duration(3*intervalMs) * time.Millisecond)
+	dc.mu.Lock()
+	pings, after := len(dc.pingAt), 0
+	for _, t := range dc.pingAt {
+		if t.After(retTime) {
+			after++
+		}
+	}
+	closed := dc.nclosed > 0
+	dc.mu.Unlock()
+	dc.Close()
+	if !returned {
+		// a keepalive that outlived the session: stop it, it would go on pinging during the next runs
+		select {
+		case <-quit:
+		default:
+			func() { defer func() { recover() }(); close(quit) }()
+		}
+	}
+	mu.Lock()
+	defer mu.Unlock()
+	return fmt.Sprintf("pings=%d connclosed=%v errh=%d disc=%d returned=%v afterret=%d", pings, closed, errh, disc, returned, after)
+}
+
 func (c18) Exec(c Case) []string {
 	obs := make([]string, len(c.Ops))
 	var wg sync.WaitGroup
@@ -202,6 +321,16 @@ func (c18) Exec(c Case) []string {
 			go func(i int) {
 				defer wg.Done()
 				obs[i] = c18xrun(iv, k)
+			}(i)
+			continue
+		}
+		if op[0] == "xclose" && len(op) == 3 {
+			iv, _ := strconv.Atoi(op[1])
+			a, _ := strconv.Atoi(op[2])
+			wg.Add(1)
+			go func(i int) {
+				defer wg.Done()
+				obs[i] = c18xclose(iv, a)
 			}(i)
 			continue
 		}
@@ -259,6 +388,12 @@ func (c18) Generate(rng *rand.Rand, tier string, st *Stats) []Case {
 		for k := 1; k <= 4; k++ {
 			ops = append(ops, []string{"xrun", strconv.Itoa([]int{4, 7, 12}[(k+b)%3]), strconv.Itoa(k)})
 			st.Inc("dead_connection_real_transport")
+		}
+		// the server closes the stream gracefully at various phases relative to the ticker
+		for j := 0; j < 4; j++ {
+			iv := []int{4, 7, 12}[(j+b)%3]
+			ops = append(ops, []string{"xclose", strconv.Itoa(iv), strconv.Itoa([]int{0, iv / 2, iv, 3*iv + 1}[j])})
+			st.Inc("server_closes_stream_real_transport")
 		}
 		cases = append(cases, Case{ID: fmt.Sprintf("batch%d", n), Ops: ops})
 		n++
